@@ -19,7 +19,7 @@ type SliceSpaceExpressionContext struct {
 
 func (s *SliceSpaceExpressionContext) GetMatch(idx int) string {
 	sliceIndex := idx * 2
-	if sliceIndex < 0 || sliceIndex+1 >= len(s.indices) {
+	if idx < 0 || sliceIndex < 0 || sliceIndex+1 >= len(s.indices) {
 		return ""
 	}
 	start := s.indices[sliceIndex]
